@@ -807,6 +807,19 @@ def _install(ch):
             ch.log({'k': 'input', 'answer': '<EOF>'})
             raise EOFError('EOF when reading a line')
         a = answers.pop(0)
+        if isinstance(a, dict):
+            # while the command waits for the answer, somebody else acts on the budget (an editor saves a file, a sync client
+            # delivers one): done with the un-interposed calls - it is not the simulated process that writes
+            for rel_, text_ in sorted((a.get('actor') or {}).get('write', {}).items()):
+                p_ = os.path.join(ch.root, rel_)
+                try:
+                    os.makedirs(os.path.dirname(p_), exist_ok=True) if not os.path.isdir(os.path.dirname(p_)) else None
+                except OSError:
+                    pass
+                with _real_open(p_, 'wb') as f_:
+                    f_.write(text_.encode('utf-8'))
+                ch.log({'k': 'actor', 'path': rel_, 'size': len(text_)})
+            a = a.get('answer', '')
         ch.log({'k': 'input', 'answer': a})
         if a == '<EOF>':
             raise EOFError('EOF when reading a line')
